@@ -108,6 +108,8 @@ class Type:
     def name(self):
         if self.is_builtin:
             ret = self._type.name.lower()
+        elif self._type == BuiltinType.UNKNOWN:
+            ret = 'unknown'
         else:
             ret = self.user_type_name
         if self.is_array:
